@@ -63,7 +63,7 @@ def gen_curve_faults(r, tier):
 class C09(Prop):
     id = "C09"
     lean_modules = ["Fan2go.Props.C09"]
-    fact_modules = ["Fan2go.Props.Facts", "Fan2go.Props.Trans2Evaluate", "Fan2go.Props.Trans3A", "Fan2go.Props.Trans3B"]
+    fact_modules = ["Fan2go.Props.Facts", "Fan2go.Props.Trans2Evaluate", "Fan2go.Props.Trans3A", "Fan2go.Props.Trans3B", "Fan2go.Props.Trans3Fan"]
     rule = ("faulty: real controllers (hwmon / file fans on virtual devices, cmd fans on real scripts and processes) with failing, garbage, refused and silently ignored "
             "reads and writes of the PWM, mode and RPM registers switched on and off between cycles (singles, pairs, many); "
             "curve-faults: linear / PID / nested function curves over sensors whose reads fail; sensor: C08's sensor stream; "
@@ -85,6 +85,9 @@ class C09(Prop):
                     break   # a crashing curve is C11's subject; the scripted panic is passed through by design
                 if "panic:" in g:
                     out.append(viol(f"operation crashed under a read/write fault: {op[:60]} -> {g[:60]}", cops, cgo, upto=i))
+                    break
+                if op.startswith("sn.monitor") and not g.startswith("res=ok"):
+                    out.append(viol(f"the sensor monitor did not survive a sensor outage ({g.split()[0]}): {op[:100]}", cops, cgo, upto=i))
                     break
         return out
 
